@@ -26,15 +26,18 @@ type seg struct {
 }
 
 type chanSpec struct {
-	kind       string // custom tcp udp
-	tag        byte
-	script     []seg
-	chunks     []int // split sizes for custom/tcp
-	startDelay time.Duration
-	disconnect bool
-	early      bool // tcp: the peer half-closes right after its last byte instead of waiting for the events
-	pipe       *sim.Pipe
-	peer       *sim.Peer
+	kind   string // custom tcp udp
+	tag    byte
+	script []seg
+	chunks []int // split sizes for custom/tcp; segments per datagram for udp
+	// udp: every datagram carries as many whole segments as fit into 512 bytes
+	fullDatagrams bool
+	maxDatagram   int
+	startDelay    time.Duration
+	disconnect    bool
+	early         bool // tcp: the peer half-closes right after its last byte instead of waiting for the events
+	pipe          *sim.Pipe
+	peer          *sim.Peer
 }
 
 func (c *chanSpec) valid() []int {
@@ -187,8 +190,26 @@ func (c *chanSpec) feed(udpAddr, tcpAddr string) error {
 		if err := p.Send([]byte{0x01}); err != nil {
 			return fmt.Errorf("BROKEN: send: %v", err)
 		}
-		for _, s := range c.script {
-			if err := p.Send(s.bytes); err != nil {
+		// datagrams carry one or several whole segments (never more than 512 bytes, the size of the reader's
+		// buffer: a longer datagram cannot be received in one piece); how many is taken from the chunk list
+		for i, k := 0, 0; i < len(c.script); k++ {
+			want := 1
+			if k < len(c.chunks) {
+				want = c.chunks[k] // 1..40 segments, as many as fit
+			}
+			if c.fullDatagrams {
+				want = 40
+			}
+			dg := append([]byte{}, c.script[i].bytes...)
+			i++
+			for n := 1; n < want && i < len(c.script) && len(dg)+len(c.script[i].bytes) <= 512; n++ {
+				dg = append(dg, c.script[i].bytes...)
+				i++
+			}
+			if len(dg) > c.maxDatagram {
+				c.maxDatagram = len(dg)
+			}
+			if err := p.Send(dg); err != nil {
 				return fmt.Errorf("BROKEN: send: %v", err)
 			}
 			time.Sleep(200 * time.Microsecond)
@@ -257,8 +278,8 @@ func renderEvents(recs []sim.Rec, chanIdx map[*gomavlib.Channel]int) string {
 }
 
 func TestC10EventStream(t *testing.T) {
-	rec := evid.New(t, "C10", "scripted scenarios on a real Node: 1..4 channels (custom in-memory transports, TCP-server and UDP-server peers on loopback) each fed a generated script of valid tagged frames, complete frames with wrong checksum / wrong signature / missing signature and non-marker junk in generated chunkings, a consumer with generated pacing (fast, sleeping, bursty, paused then resumed), concurrent WriteMessageAll callers, late-connecting and disconnecting TCP peers; per channel the event sequence must match Open (Frame|ParseError)* Close?, frames == the valid frames of that channel's script in order with the channel's tag, rejected input only as ParseError, exactly one Close for a disconnected peer and nothing after it; non-trivial = >=2 channels with >=1 rejected segment and a non-fast consumer; distinct by hash of the scripts")
-	rec.Require("multi-channel+rejected+slow-consumer", "custom", "tcp", "udp", "inkey", "inkey+out-v1", "disconnect", "paused-consumer", "concurrent-writers", "stream-requests-enabled", "link-drops-right-after-last-byte+stream-requests")
+	rec := evid.New(t, "C10", "scripted scenarios on a real Node: 1..4 channels (custom in-memory transports, TCP-server and UDP-server peers on loopback) each fed a generated script of valid tagged frames, complete frames with wrong checksum / wrong signature / missing signature and non-marker junk in generated chunkings (UDP: datagrams of one to many whole segments, up to 512 bytes), a consumer with generated pacing (fast, sleeping, bursty, paused then resumed), concurrent WriteMessageAll callers, late-connecting and disconnecting TCP peers; per channel the event sequence must match Open (Frame|ParseError)* Close?, frames == the valid frames of that channel's script in order with the channel's tag, rejected input only as ParseError, exactly one Close for a disconnected peer and nothing after it; non-trivial = >=2 channels with >=1 rejected segment and a non-fast consumer; distinct by hash of the scripts")
+	rec.Require("multi-channel+rejected+slow-consumer", "custom", "tcp", "udp", "inkey", "inkey+out-v1", "disconnect", "paused-consumer", "concurrent-writers", "stream-requests-enabled", "link-drops-right-after-last-byte+stream-requests", "udp-datagram-of-several-frames-over-280-bytes")
 	evid.Check(t, rec, evid.N(400, 1000), func(t *rapid.T) {
 		w := &c10World{}
 		w.dialect = rapid.IntRange(0, 3).Draw(t, "dialect") > 0
@@ -273,7 +294,11 @@ func TestC10EventStream(t *testing.T) {
 		for i := 0; i < nch; i++ {
 			c := &chanSpec{tag: byte(i + 1)}
 			c.kind = rapid.SampledFrom([]string{"custom", "custom", "tcp", "tcp", "udp"}).Draw(t, "kind")
-			c.script = drawScript(t, c.tag, w.dialect, w.key, 14, w.streamReq)
+			maxSeg := 14
+			if c.kind == "udp" && rapid.Bool().Draw(t, "full_datagrams") {
+				c.fullDatagrams, maxSeg = true, 30
+			}
+			c.script = drawScript(t, c.tag, w.dialect, w.key, maxSeg, w.streamReq)
 			c.chunks = rapid.SliceOfN(rapid.IntRange(1, 40), 0, 30).Draw(t, "chunks")
 			c.startDelay = time.Duration(rapid.IntRange(0, 3000).Draw(t, "delay_us")) * time.Microsecond
 			c.disconnect = c.kind == "tcp" && rapid.Bool().Draw(t, "disconnect")
@@ -322,6 +347,12 @@ func TestC10EventStream(t *testing.T) {
 		for _, c := range w.specs {
 			if c.early && w.streamReq {
 				cls = append(cls, "link-drops-right-after-last-byte+stream-requests")
+				break
+			}
+		}
+		for _, c := range w.specs {
+			if c.maxDatagram > 280 {
+				cls = append(cls, "udp-datagram-of-several-frames-over-280-bytes")
 				break
 			}
 		}
